@@ -112,7 +112,7 @@ Lemma zread (ud : bool) n c next d : forall m fuel st off,
   zdecomp (if ud then r_dict st else None) (sub b off (c_clen c)) (c_ulen c) = Some d -> len d = c_ulen c -> c_ulen c = n ->
   exists st', comp_loop H zdecomp hd fuel ud n st [] false = (ROk d, st') /\
     r_err st' = r_err st /\ r_dict st' = r_dict st /\ r_started st' = r_started st /\
-    r_chash st' = Some [] /\ fh_ok st' /\ r_dc st' = [].
+    r_chash st' = Some [] /\ fh_ok st' /\ r_dc st' = [] /\ r_idx st' = next.
 Proof.
   induction m as [|m IH]; intros fuel st off Hm Hfuel Hn Hdc Heof Hidx Hloc Hcl Hb Hrest Hdata Hch Hfh Hok Hzd Hld Hul.
   - (* nothing left to read: close the chunk and hand the data out *)
@@ -143,7 +143,7 @@ Proof.
     { unfold src. rewrite Hrest. apply sub_extend. }
     edestruct (IH fuel (mkR (dropN rs (r_rest st)) (r_data st ++ src) (r_loc st + len src) (c :: next) false [] (r_dcloc st + 0)
                           (Some (sub b off (r_loc st) ++ src)) fh' (r_dict st) (r_started st) (r_err st)) off)
-      as (st' & Hr & P1 & P2 & P3 & P4 & P5 & P6); rsimpl; try reflexivity; try assumption; try lia.
+      as (st' & Hr & P1 & P2 & P3 & P4 & P5 & P6 & P7); rsimpl; try reflexivity; try assumption; try lia.
     + rewrite Hdata. exact E2.
     + left. now rewrite E2.
     + destruct Hfh' as [Hu|Hne]; [now left|right]. destruct fh' as [x|]; [now exists x|congruence].
@@ -154,36 +154,43 @@ Qed.
 Definition Rdy (st : rstate) : Prop :=
   r_err st = 0 /\ fh_ok st /\ (r_chash st = None \/ r_chash st = Some []).
 
+Lemma nat_eqb_succ (n : nat) : Nat.eqb n (S n) = false.
+Proof. induction n as [|n IH]; [reflexivity|exact IH]. Qed.
+
 Lemma request_data fuel st k c next d :
   skipn k cks = c :: next -> Rdy st ->
   (first_ulen hd = 0 \/ r_dict st <> None) ->
-  0 < c_ulen c -> 0 < c_clen c -> c_clen c < two64 -> c_start c + c_clen c <= len b ->
-  bytes_eqb (H (h_chash hd) (stored b c)) (c_digest c) = true ->
+  0 < c_ulen c -> c_clen c < two64 -> c_start c + c_clen c <= len b ->
+  (if c_clen c =? 0 then all_zero (c_digest c) else bytes_eqb (H (h_chash hd) (stored b c)) (c_digest c)) = true ->
   zdecomp (match k with O => None | _ => r_dict st end) (stored b c) (c_ulen c) = Some d -> len d = c_ulen c ->
   (N.to_nat (c_clen c) + 3 <= fuel)%nat ->
   exists st', zck_get_chunk_data H zdecomp hd f fuel st k (c_ulen c) = (ROk d, st') /\
               Rdy st' /\ r_chash st' = Some [] /\ r_dict st' = r_dict st.
 Proof.
-  intros Hsk (He & Hfh & Hch) Hd Hu Hc Hcl Hb Hok Hzd Hld Hfuel.
+  intros Hsk (He & Hfh & Hch) Hd Hu Hcl Hb Hok Hzd Hld Hfuel.
   unfold zck_get_chunk_data. rewrite Hsk, He. change (0 <? 0) with false. cbv iota.
   destruct (N.eqb_spec (c_ulen c) 0) as [E|_]; [lia|].
   assert (Hcond : (0 <? first_ulen hd) && match r_dict st with None => true | Some _ => false end = false).
   { destruct Hd as [->|Hd]; [reflexivity|]. destruct (r_dict st); [apply andb_false_r|congruence]. }
   rewrite Hcond.
-  unfold comp_init, comp_reset, reset_comp_data. rsimpl. rewrite He. change (0 <? 0) with false. cbv iota. rsimpl.
-  unfold comp_read, seek. rsimpl. rewrite He. change (0 <? 0) with false. cbn [negb]. cbv iota.
-  destruct (N.eqb_spec (c_ulen c) 0) as [E|_]; [lia|].
-  assert (Hcond2 : (match k with O => false | _ => true end) && (0 <? first_ulen hd) && match r_dict st with None => true | Some _ => false end = false).
-  { rewrite <- andb_assoc, Hcond. apply andb_false_r. }
-  rewrite Hcond2.
-  set (st0 := set_idx _ _).
-  edestruct (zread (match k with O => false | _ => true end) (c_ulen c) c next d (N.to_nat (c_clen c)) fuel st0 (c_start c))
-    as (st' & Hr & P1 & P2 & P3 & P4 & P5 & P6); unfold st0, seek, set_idx, set_rest; rsimpl; try reflexivity; try assumption; try lia.
+  unfold comp_init, comp_reset, reset_comp_data. rsimpl. rewrite He. change (0 <? 0) with false. cbv iota. rsimpl. cbv zeta.
+  match goal with |- context [comp_read H zdecomp hd fuel ?s _ _] => set (st3 := s) end.
+  set (ud := match k with O => false | _ => true end).
+  assert (Hcr : comp_read H zdecomp hd fuel st3 (c_ulen c) ud = comp_loop H zdecomp hd fuel ud (c_ulen c) st3 [] false).
+  { unfold comp_read, st3, seek. rsimpl. rewrite He. change (0 <? 0) with false. cbn [negb]. cbv iota.
+    destruct (N.eqb_spec (c_ulen c) 0) as [E|_]; [lia|].
+    assert (Hcond2 : ud && (0 <? first_ulen hd) && match r_dict st with None => true | Some _ => false end = false).
+    { rewrite <- andb_assoc, Hcond. apply andb_false_r. }
+    rewrite Hcond2. reflexivity. }
+  rewrite Hcr.
+  edestruct (zread ud (c_ulen c) c next d (N.to_nat (c_clen c)) fuel st3 (c_start c))
+    as (st' & Hr & P1 & P2 & P3 & P4 & P5 & P6 & P7); unfold st3, seek, set_idx, set_chash, set_rest; rsimpl; try reflexivity; try assumption; try lia.
   - rewrite N.add_0_r. unfold body, data_offset. now rewrite dropN_dropN.
-  - destruct Hch as [Hch|Hch]; [right|left]; rewrite Hch; [split; [reflexivity|split; [reflexivity|exact Hc]]|reflexivity].
-  - destruct (N.eqb_spec (c_clen c) 0); [lia|]. exact Hok.
-  - destruct k; exact Hzd.
-  - exists st'. split; [exact Hr|]. rsimpl. split; [|split; [exact P4|exact P2]].
+  - now left.
+  - unfold ud. destruct k; exact Hzd.
+  - unfold st3, seek, set_idx, set_chash, set_rest in Hr. rsimpl. rewrite Hr, P7.
+    cbn [length]. rewrite nat_eqb_succ, andb_false_r.
+    exists st'. split; [reflexivity|]. split; [|split; [exact P4|exact P2]].
     split; [rewrite P1; exact He|]. split; [exact P5|now right].
 Qed.
 
@@ -279,7 +286,9 @@ Proof.
       { rewrite Hdn. unfold decode_chunk in Hd1. destruct (zdecomp None (stored b c) (c_ulen c)) as [x|]; [|discriminate].
         destruct (len x =? c_ulen c); [congruence|discriminate]. }
       pose proof (clen_le_total c cks Hin) as Hle.
-      destruct (request_data fuel st (S k') c next d Hsk HR (or_introl Hfu) ltac:(lia) ltac:(lia) ltac:(lia) Hb Hh Hzd Hd2 (Hfuel c Hin))
+      assert (Hokif : (if c_clen c =? 0 then all_zero (c_digest c) else bytes_eqb (H (h_chash hd) (stored b c)) (c_digest c)) = true).
+      { destruct (N.eqb_spec (c_clen c) 0); [contradiction|exact Hh]. }
+      destruct (request_data fuel st (S k') c next d Hsk HR (or_introl Hfu) ltac:(lia) ltac:(lia) Hb Hokif Hzd Hd2 (Hfuel c Hin))
         as (st' & -> & HR' & _ & Hd').
       constructor.
       * exists c, next, d. split; [exact Hsk|]. split; [reflexivity|]. split; [exact Hd2|]. intros _. exact Hd1.
